@@ -3,6 +3,7 @@
 
 pub mod alloc;
 pub mod ctx;
+pub mod fixtures;
 pub mod known;
 pub mod marker;
 pub mod panics;
